@@ -173,13 +173,16 @@ def classify_invalid(schema, value, *, dialect, root, loc):
     for r in readings_:
         leafs: list = []
         options.append((violated_keywords(schema, r, dialect=dialect, root=root, leaf_schemas=leafs), leafs))
+    allowed = {"minLength", "maxLength", "pattern", "type", "enum", "minimum", "maximum", "multipleOf", "format", "exclusiveMinimum", "exclusiveMaximum"}
+    for kws, leafs in options:
+        # pattern x length: a violated leaf is a pattern / length keyword of a subschema that has both a pattern and a length
+        # keyword (sibling anyOf / nullable branches contribute their own `type` errors)
+        culprits = [sub for kw, sub in leafs if kw in ("pattern", "minLength", "maxLength") and "pattern" in sub and ("minLength" in sub or "maxLength" in sub)]
+        if culprits and set(kws) <= allowed:
+            anchorings = sorted({pattern_anchoring(sub["pattern"]) for sub in culprits})
+            which = "length" if any(kw in ("minLength", "maxLength") for kw, sub in leafs if sub in culprits) else "pattern"
+            return f"pattern+length:{which}-violated:anchored={'+'.join(anchorings)}"
     kws, leafs = min([o for o in options if "type" not in o[0]] or options, key=lambda o: len(o[0]))  # prefer the reading of the declared type
-    # pattern x length: some violated leaf is a pattern / length keyword of a subschema that has both a pattern and a length keyword
-    culprits = [sub for kw, sub in leafs if kw in ("pattern", "minLength", "maxLength") and "pattern" in sub and ("minLength" in sub or "maxLength" in sub)]
-    if culprits and set(kws) <= {"minLength", "maxLength", "pattern", "type", "enum", "minimum", "maximum", "multipleOf", "format", "exclusiveMinimum", "exclusiveMaximum"}:
-        anchorings = sorted({pattern_anchoring(sub["pattern"]) for sub in culprits})
-        which = "length" if any(kw in ("minLength", "maxLength") for kw, sub in leafs if sub in culprits) else "pattern"
-        return f"pattern+length:{which}-violated:anchored={'+'.join(anchorings)}"
     if "not" in kws and loc == "body":
         owners = readonly_hits(schema, value, root)
         if owners and all(t != "object" for t, n in owners):
@@ -280,6 +283,13 @@ def load_operation(plan):
 
     doc = gd.build_doc(plan)
     schema = schemathesis.openapi.from_dict(doc)
+    if plan.get("access") == "iterate":
+        # the way the engine, the CLI and `parametrize` obtain operations
+        for result in schema.get_all_operations():
+            operation = result.ok()
+            if operation.method.lower() == plan["method"] and operation.path == plan["path"]:
+                return schema, operation
+        raise AssertionError("operation not offered by get_all_operations()")
     return schema, schema[plan["path"]][plan["method"].upper()]
 
 
@@ -297,6 +307,9 @@ def plan_classes_of(plan, c):
         classes.append("security")
     if plan["schemas"]:
         classes.append("ref-schema")
+    classes.append(f"access={plan.get('access', 'lookup')}")
+    if plan.get("sibling_overrides") and any(p.get("level") == "path" for p in plan["params"]):
+        classes.append("sibling-overrides-path-level-params")
     if any(p.get("ref") for p in plan["params"]):
         classes.append("ref-param")
     if any("pattern" in repr(p["schema"]) for p in plan["params"]) or any("pattern" in repr(b["schema"]) for b in plan["bodies"]):
@@ -390,7 +403,7 @@ def check_operation(ctx: Ctx, inp) -> None:
         if case.body is not NOT_SET and plan["bodies"]:
             body_def = next((b for b in plan["bodies"] if b["media_type"] == case.media_type), None)
             split_strings(body_def["schema"] if body_def else {}, case.body, root, declared, undeclared)
-        declared = [x for x in declared if x not in literals]  # enum / const members are the schema author's, not generated
+        declared = [x for x in declared if not made_of_literals(x, literals)]  # enum / const members are the schema author's, not generated
         for kind, pool in (("declared-position", declared), ("unconstrained-position", undeclared)):
             if not c["allow_x00"] and any("\x00" in x for x in pool):
                 ctx.disagree(f"strings:{kind}:x00-generated-although-disabled", f"a NUL character was generated at a {kind} with allow_x00=False", input=inp, case=summary)
@@ -401,6 +414,16 @@ def check_operation(ctx: Ctx, inp) -> None:
                     except UnicodeEncodeError:
                         ctx.disagree(f"strings:{kind}:not-encodable-in-codec", f"{x!r} ({kind}) is not encodable in {c['codec']}", input=inp, case=summary)
                         break
+
+
+def made_of_literals(text, literals) -> bool:
+    if text in literals:
+        return True
+    if "," not in text:
+        return False
+    if text.count(",") > 10:
+        return any(lit and lit in text for lit in literals)
+    return any(all(part in literals for part in seg) for seg in comma_segmentations(text))
 
 
 def schema_literals(schemas) -> set:
